@@ -103,7 +103,7 @@ func C02(c Ctx) *report.Report {
 	next := 0
 	o := clpOpts(c, 30, 1200)
 	o.Weights = map[int]int{1: 2, 2: 7, 3: 6, 4: 6, 5: 4, 6: 2, 7: 1, 8: 2, 9: 1}
-	hs := []History{ScriptF14(&next), ScriptReinvestDry(&next), ScriptZeroUnitProvider(&next)} // corpus first
+	hs := []History{ScriptF14(&next), ScriptReinvestDry(&next), ScriptReinvestSix(&next), ScriptZeroUnitProvider(&next)} // corpus first
 	for i := 0; i < c.N(6, 100); i++ {
 		hs = append(hs, ScriptDust(rng, 8000+i, &next))
 	}
